@@ -49,9 +49,11 @@ AVOID_SPLICE_GROW = "splice-grow-in-coercion"   # C14-F1: splice whose start/del
 AVOID_SPREAD_SET = "spread-uses-set"            # C14-F3: spread elements are appended with [[Set]] (Array.prototype.push), so an accessor /
                                                 # read-only element on Array.prototype / Object.prototype is observed: steps with `...` get only
                                                 # plain data elements on the prototypes
-AVOID_DELETE_NAMED = "delete-named-property"    # C14-F4: deleting a named property re-applies the shape transitions and loses attribute changes
-                                                # made to EARLIER properties (a read-only `length` becomes writable again): `delete` steps
-                                                # only delete index keys / `length`
+AVOID_SHAPE_ROLLBACK = "shape-rollback"         # C14-F4: deleting a named property, or turning an existing named data property into an accessor
+                                                # (or back), rolls the shape back and re-applies the later transitions as inserts; attribute
+                                                # changes made to EARLIER properties are lost (a read-only `length` becomes writable again):
+                                                # `delete` steps only delete index keys / `length`, defineProperty steps do not redefine an
+                                                # existing named key
 AVOID_FORIN_PROXY = "forin-proxy"               # C14-F2: for-in over a Proxy does not visit inherited keys: for-in steps get no P lane
 
 LIB = r"""
@@ -569,7 +571,7 @@ class Gen:
             return None
         st = Step("delete", None, guard=False, sparse=True)
         k = self.r.choice(["0", "1", "2", "3", "t.length-1", "t.length>>1", "t.length", "'length'", "4294967294", "'x'", "5"])
-        if AVOID_DELETE_NAMED in self.avoid:
+        if AVOID_SHAPE_ROLLBACK in self.avoid:
             # (t.length itself is a NAMED key when length is 4294967295)
             st.body = lambda M: "var k=%s;if(!AI(k)&&k!=='length')return 'named-key';return delete t[k];" % k
         else:
@@ -644,10 +646,11 @@ class Gen:
             d = "{value:%s,writable:%s,enumerable:%s,configurable:%s}" % (v, r.choice(["true", "false"]), r.choice(["true", "false"]),
                                                                            r.choice(["true", "false"]))
         st.lk = "IR(t,%s)" % k
-        if r.chance(0.5):
-            st.body = lambda M: "%sreturn Reflect.defineProperty(t,%s,%s);" % (pre, k, d)
+        fn = "Reflect.defineProperty" if r.chance(0.5) else "dP"
+        if AVOID_SHAPE_ROLLBACK in self.avoid:
+            st.body = lambda M: "var k=%s;if(!AI(k)&&HOP.call(t,k))return 'named-key';%sreturn %s(t,k,%s);" % (k, pre, fn, d)
         else:
-            st.body = lambda M: "%sreturn dP(t,%s,%s);" % (pre, k, d)
+            st.body = lambda M: "%sreturn %s(t,%s,%s);" % (pre, fn, k, d)
         return st
 
     def op_deflen(self, p, a):
